@@ -397,9 +397,12 @@ def rule_assembled(ctx):
     # builder chains
     chains = tasks.problem_chains(body)
     by = {c["name"]: c for c in chains}
+    from .. import comp
+    comp.use(fx)
+    cv = comp.canon(sym.Eval(fx, inline_depth=0).function(b, [("param", "$self")]))
     for d in ("forward", "backward"):
         fin = by.get("%s_problem" % d)
-        out = by.get("%s_outline_{i}_{j}" % d)
+        out = by.get("%s_outline_{}_{}" % d)
         if not fin or not out:
             ctx.bad("FLOW-ROUTE", "assembled:%s:chains" % d, site, "builder chains for %s not found: %s" % (d, sorted(by)))
             continue
@@ -431,29 +434,36 @@ def rule_assembled(ctx):
         lem = [a for m, a, _ in fin["steps"] if a and "lemmas" in repr(flow.summ(a[0]))]
         ok = bool(lem) and "consequences" in repr(flow.summ(lem[0][0])) and "conjectures" not in repr(flow.summ(lem[0][0]))
         ctx.add("FLOW-ROUTE", "assembled:%s:lemma-consequences" % d, ok, site, "lemmas enter the final problem through their consequences (axioms), not their conjectures")
-        osteps = [(m, src(a[0]) if a else None) for m, a, _ in out["steps"]]
-        oref = [("add_annotated_formulas", ((), ("axioms",), ())), ("add_annotated_formulas", ((), ("conjecture",), ("iter::once",))),
-                ("rename_conflicting_symbols", None), ("create_unique_formula_names", None)]
-        # locals are compared by role, not by name: first = the accumulated axioms vector, second = the inner loop variable
-        shape = [(m, (s[0], tuple("L" for _ in s[1]), s[2]) if s else None) for m, s in osteps]
-        sref = [(m, (s[0], tuple("L" for _ in s[1]), s[2]) if s else None) for m, s in oref]
-        ctx.add("FLOW-ROUTE", "assembled:%s:outline" % d, shape == sref, site, "outline problem = accumulated axioms + one conjecture; renaming; naming", construct=osteps)
-        # the accumulated axioms: stable premises + premises of the direction + definitions (as axioms)
-        ax_arg = out["steps"][0][1][0]
-        ax_id = local_id_of(ax_arg)
-        pipe = flow.pipeline(body, ax_id)
-        init_places = sorted(set(p for _, s, _ in pipe for p in flow.places_in(s)))
-        exts = []
-        for n in walk(blocks[gates[d]]):
-            if n.get("k") == "MethodCall" and n["method"] in ("extend", "append") and local_id_of(n["recv"]) == ax_id:
-                s = flow.summ(n["args"][0])
-                exts.append((n["method"], tuple(flow.places_in(s)), "Role::Axiom" in repr(s), tuple(nm for nm, _ in flow.locals_in(s))))
-        refx2 = [("extend", ("self.%s_premises" % d,), False), ("extend", ("self.proof_outline.%s_definitions" % d,), True),
-                 ("append", ("*.consequences",), False)]
-        gotx = [(m, tuple(q if q.startswith("self.") else "*." + q.split(".", 1)[1] for q in p), ax) for m, p, ax, l in exts]
-        ctx.add("FLOW-ROUTE", "assembled:%s:axioms" % d, init_places == ["self.stable_premises"] and gotx == refx2, site,
-                "outline axioms start from the stable premises and are extended by %s premises, %s definitions (role axiom) and, after each lemma, its consequences" % (d, d),
-                construct={"init": init_places, "extensions": exts})
+        # the outline problems, decided on what decompose computes (comprehension form): one problem per (lemma, conjecture of the lemma), built from
+        # the axioms as they stand when the lemma is reached plus that one conjecture
+        SELF_ = ("param", "$self")
+        LEM = ("fieldof", ("fieldof", SELF_, "proof_outline"), d + "_lemmas")
+        CONJ = ("fieldof", ("at", LEM), "conjectures")
+
+        def F(x):
+            return ("fieldof", SELF_, x)
+
+        def each_of(srcs, f=lambda e: e):
+            return (srcs, ((frozenset(), f(("at", srcs[-1]))),))
+        DEFS = ("fieldof", ("fieldof", SELF_, "proof_outline"), d + "_definitions")
+        AX0 = ("coll", (each_of((F("stable_premises"),)), each_of((F(d + "_premises"),)),
+                        each_of((DEFS,), lambda e: ("call", "AnnotatedFormula::into_problem_formula", (e, ("ctor", "Role::Axiom", ()))))))
+        name = ("format", d + "_outline_{}_{}", (("idx", (LEM,)), ("idx", (CONJ,))))
+        want = ("call", "Problem::create_unique_formula_names", (("call", "Problem::rename_conflicting_symbols", (("call", "Problem::add_annotated_formulas", (
+            ("call", "Problem::add_annotated_formulas", (("call", "Problem::with_name", (name,)), ("loop-head", AX0))), ("call", "iter::once", (("at", CONJ),)))),)),))
+        groups = [x for x in sym.subterms(cv) if isinstance(x, tuple) and len(x) == 2 and x[0] == (LEM, CONJ) and isinstance(x[1], tuple)]
+        elems = list(dict.fromkeys(e for g in groups for _, e in g[1]))     # the same loop can show up in both branches of the direction test
+        ctx.add("FLOW-ROUTE", "assembled:%s:outline" % d, elems == [want], site, "outline problem = accumulated axioms + one conjecture; renaming; naming",
+                construct=None if elems == [want] else elems[:2])
+        got_ax = list(dict.fromkeys(x[1] for e in elems for x in sym.subterms(e) if isinstance(x, tuple) and x[:1] == ("loop-head",) and len(x) == 2))
+        ctx.add("FLOW-ROUTE", "assembled:%s:axioms" % d, got_ax == [AX0], site,
+                "outline axioms start from the stable premises and are extended by %s premises, %s definitions (role axiom) and, after each lemma, its consequences "
+                "(the last part: C13's SEQ obligations, run below)" % (d, d), construct=None if got_ax == [AX0] else got_ax[:1])
+    # after each lemma its own consequences join the axioms (C13's sequencing obligations on the same function)
+    from . import c13
+    sub = type(ctx)(ctx.prop, ctx.tier, ctx.facts)
+    c13.rule_sequencing(sub)
+    ctx.obls.extend(o for o in sub.obls if ":append-" in o["key"] or ":outline-problem" in o["key"])
 
 
 def rule_fresh_rename(ctx):
